@@ -14,6 +14,7 @@ import (
 	"runtime/debug"
 	"sort"
 	"strings"
+	"syscall"
 	"time"
 
 	"github.com/sirupsen/logrus"
@@ -95,15 +96,49 @@ func loadInProcess(dir string, c LoadCase) loadResult {
 		if r.err == nil || !(strings.Contains(r.err.Error(), "too many open files") || strings.Contains(r.err.Error(), "no space left on device")) {
 			return r
 		}
+		closeLeakedInotify()
 		if attempt >= 8 {
-			fmt.Fprintln(os.Stderr, "resource exhaustion while loading (not a verdict):", r.err)
-			os.Exit(2)
+			// persistent exhaustion caused by something else on the machine: this case is not
+			// judged (the result is marked non-exhaustive), it is never turned into a verdict
+			resourceSkips++
+			return r
 		}
 		time.Sleep(time.Duration(300*(attempt+1)) * time.Millisecond)
 	}
 }
 
-func loadOnce(dir string, c LoadCase) loadResult {
+var resourceSkips int
+
+// exhausted: the load failed only because the machine ran out of inotify instances / descriptors.
+func exhausted(r loadResult) bool {
+	return r.err != nil && (strings.Contains(r.err.Error(), "too many open files") || strings.Contains(r.err.Error(), "no space left on device"))
+}
+
+// closeLeakedInotify closes the inotify instances that a FAILED load left behind: taskctl creates
+// one per configured watcher while building the configuration and has no reference to give back
+// when a later section is rejected (a process that cannot load its configuration exits anyway).
+// Inotify instances are a small per-user resource (128 by default), shared by all shards.
+func closeLeakedInotify() {
+	ents, err := os.ReadDir("/proc/self/fd")
+	if err != nil {
+		return
+	}
+	for _, e := range ents {
+		l, err := os.Readlink("/proc/self/fd/" + e.Name())
+		if err == nil && strings.Contains(l, "inotify") {
+			var fd int
+			fmt.Sscanf(e.Name(), "%d", &fd)
+			syscall.Close(fd)
+		}
+	}
+}
+
+func loadOnce(dir string, c LoadCase) (res loadResult) {
+	defer func() {
+		if res.err != nil || res.panic != "" {
+			closeLeakedInotify()
+		}
+	}()
 	writeCase(dir, c)
 	os.Setenv("HOME", filepath.Join(dir, "home"))
 	os.Chdir(dir)
@@ -152,9 +187,10 @@ func (r loadResult) release() {
 }
 
 type binResult struct {
-	out  string
-	code int
-	hang bool
+	out       string
+	code      int
+	hang      bool
+	exhausted bool // the process could not get an inotify instance / descriptor: not judged
 }
 
 func runBinary(dir string, args ...string) binResult {
@@ -165,6 +201,10 @@ func runBinary(dir string, args ...string) binResult {
 			break
 		}
 		time.Sleep(time.Duration(300*(attempt+1)) * time.Millisecond) // per-user inotify exhaustion: retry
+	}
+	if strings.Contains(r.out, "too many open files") {
+		r.exhausted = true
+		resourceSkips++
 	}
 	return r
 }
@@ -271,6 +311,11 @@ func main() {
 	}
 	if res.Nontrivial == 0 {
 		res.Nontrivial = int64(len(x.kinds))
+	}
+	if resourceSkips > 0 {
+		res.Exhaustive = false
+		res.Capped = fmt.Sprintf("%d cases not judged: inotify instances exhausted by other activity on the machine", resourceSkips)
+		res.Extra["resource_skips"] = int64(resourceSkips)
 	}
 	res.Configs = res.Evaluations
 	res.Write()
